@@ -89,14 +89,14 @@ func init() {
 	}, 3, 4)
 	core.Register(&core.Check{
 		ID: "C11", Level: "model_checking",
-		Rule:   "same explicit-state search as C07 (29 operations, all sequences up to depth 3/5, exact-limb state keys); in every distinct state MapToScalarField(r_i) = reference LE(x/y mod p) mod r, equal for all representations of one class reached along different paths (hash set over all visited classes), different for different classes (injectivity on the visited classes), BatchMapToScalarField on every register ordering incl. a duplicate equals the single calls; plus batches of lengths 0..4097 (incl. 511,512,513,1000,1024,1025) with duplicates and the identity under several CPU counts, results read through the caller's own (pre-filled) variables, length mismatch = error; non-trivial = every visited state",
+		Rule:   "same explicit-state search as C07 (29 operations, all sequences up to depth 3/5, exact-limb state keys); in every distinct state MapToScalarField(r_i) = reference LE(x/y mod p) mod r, equal for all representations of one class reached along different paths (hash set over all visited classes), different for different classes (injectivity on the visited classes), BatchMapToScalarField on every register ordering incl. a duplicate equals the single calls; plus batches of lengths 0..8192 (incl. 127..129, 511..513, 1000, 1024, 1025, 2048, 4095..4097, 8192) with duplicates and the identity under several CPU counts, results read through the caller's own (pre-filled) variables, length mismatch = error; non-trivial = every visited state",
 		Assume: []string{"reference: x/y over math/big, little-endian integer value reduced mod r", "class identity from the reference group law along the same history"},
 		Units: func(ctx *core.Ctx) []core.Unit {
 			us := base(ctx)
 			us = append(us, core.Unit{Name: "batches of lengths 0..300 with duplicates and the identity", Run: func(ctx *core.Ctx, r *core.Result) {
 				needRef()
 				c := conf()
-				lens := []int{0, 1, 2, 3, 15, 16, 17, 31, 32, 33, 255, 256, 257, 300, 511, 512, 513, 1000, 1024, 1025, 4097}
+				lens := []int{0, 1, 2, 3, 15, 16, 17, 31, 32, 33, 127, 128, 129, 255, 256, 257, 300, 511, 512, 513, 1000, 1024, 1025, 2048, 4095, 4096, 4097, 8192}
 				for li, L := range lens {
 					if vsched.Instrumented {
 						setCPU([]int{0, 1, 3, 16, 17}[li%5])
